@@ -128,12 +128,12 @@ impl GLM {
 
     fn apply_dbeta_penalty(&self, dbeta: &mut [f64], coef: &[f64]) {
         for i in 1..coef.len() {
-            dbeta[i] += coef[i];
+            dbeta[i] += self.alpha * coef[i];
         }
     }
 
     fn apply_ddbeta_penalty(&self, ddbeta: &mut [f64], n_predictors: usize) {
-        for i in 0..n_predictors {
+        for i in 1..n_predictors {
             ddbeta[i * n_predictors + i] += self.alpha;
         }
     }
